@@ -396,6 +396,11 @@ func Run(c *common.Ctx) error {
 	if err := exportDuringCommit(c, c.Rng.Fork()); err != nil {
 		return err
 	}
+	for _, wal := range []bool{false, true} {
+		if err := importWaitsForWriter(c, c.Rng.Fork(), wal); err != nil {
+			return err
+		}
+	}
 	if c.Thorough() {
 		if err := lockPageImport(c, c.Rng.Fork()); err != nil {
 			return err
